@@ -536,6 +536,30 @@ func checkC14(c *km.Ctx) {
 		return false
 	}}
 	olderThanWindow := func(k km.Conj) bool { return s.Holds(k, older) }
+	// (b') inside the validation path the failure count goes back to zero only for a record whose last failure is
+	// older than the window (a comparison the wrong way round forgets every failure at the next attempt)
+	for fnOwn := range own {
+		km.Instrs(fnOwn, func(in ssa.Instruction) {
+			st, ok := in.(*ssa.Store)
+			if !ok {
+				return
+			}
+			fa, ok := st.Addr.(*ssa.FieldAddr)
+			if !ok || km.NamedTypeOf(fa.X.Type()) != rateInfoT || fieldNameOf(fa) != "failCount" {
+				return
+			}
+			if z, isC := km.ConstInt(st.Val); !isC || z != 0 {
+				return
+			}
+			stt := c.F.At(st)
+			validated := km.Prim{Name: "code accepted", Direct: func(f km.Fact) bool {
+				cl, idx := callRes(f.X)
+				return f.Op == token.ILLEGAL && f.Pol && cl != nil && idx == 0 && strings.HasPrefix(km.CalleeFull(cl.Common()), "github.com/pquerna/otp/totp.Validate")
+			}}
+			okReset := len(stt) > 0 && stt.All(func(k km.Conj) bool { return olderThanWindow(k) || s.Holds(k, validated) })
+			r.Add("R-C14-4", km.FuncName(fnOwn), "failure count reset", posOf(c, st), "only when the last failure is older than the 24 h window, or after a code was accepted", clipS(stt.String(), 200), okReset)
+		})
+	}
 	for _, fn := range c.P.AllFuncs {
 		top := fn
 		for top.Parent() != nil {
